@@ -15,13 +15,19 @@ LEVEL_TEXT = (
     "node per domain of (product of weights) * f(points); independence of the chunk size; size = number of enumerated "
     "points = number of enumerated weights = product of the sizes; points and weights are images of one enumeration of "
     "the product set, in itertools.product order (position formula, membership); nested-sum form; separable integrands "
-    "give the product of the single-grid integrals. c = 0 gives 0 (recorded, outside the property). Tie to the code: "
-    "hand model of ngrid.py compared with the implementation on random configurations (structure exactly, values with "
-    "tolerance)."
+    "give the product of the single-grid integrals. c = 0 gives 0 (recorded, outside the property). Tie to the code, way 1 "
+    "(translator, regenerated on every run): MultiDomainGrid.__init__, num_domains, size, weights, points, integrate (both "
+    "routes) and _chunked_iterator are translated from the AST of ngrid.py into Gen/NGrid.lean over named primitives "
+    "(itertools.product, islice, zip, np.prod, np.sum, list indexing/slicing, `while True` with a pass bound); theorems: each "
+    "generated program equals the hand model (gen_*_eq_model: constructor, size, weights, points, _chunked_iterator for every "
+    "size, point-by-point route, vectorised route), and the route / chunk-independence / enumeration theorems are restated "
+    "over the generated programs (gen_integrate_nonvec_eq, gen_integrate_vec_eq, gen_integrate_chunk_independent, "
+    "gen_size_points_weights). Way 2: model and generated programs compared with the implementation on random "
+    "configurations (structure exactly, values with tolerance)."
 )
-TECHNIQUE = "Lean 4 proof (generic list/semiring theorems) + differential correspondence + nested-sum oracle"
-GEN = []
-LEAN_MODULES = ["GridVerif.Props.C18"]
+TECHNIQUE = "Lean 4 proof (generic list/semiring theorems; AST translation of ngrid.py with gen = model theorems) + differential correspondence + nested-sum oracle"
+GEN = ["ngrid"]
+LEAN_MODULES = ["GridVerif.Props.C18", "GridVerif.Props.C18.Gen"]
 THEOREMS = [
     "GridVerif.C18.mem_product",
     "GridVerif.C18.product_order",
@@ -39,20 +45,41 @@ THEOREMS = [
     "GridVerif.C18.integrate_separable",
     "GridVerif.NGrid.chunk_fold",
     "GridVerif.NGrid.flatten_chunked",
+    # over the text generated from ngrid.py (Gen/NGrid.lean)
+    "GridVerif.C18.gen_chunked_eq_model",
+    "GridVerif.C18.gen_init_eq_model",
+    "GridVerif.C18.gen_size_eq_model",
+    "GridVerif.C18.gen_weights_eq_model",
+    "GridVerif.C18.gen_points_eq_model",
+    "GridVerif.C18.gen_integrate_nonvec_eq_model",
+    "GridVerif.C18.gen_integrate_vec_eq_model",
+    "GridVerif.C18.gen_constructor_wf",
+    "GridVerif.C18.gen_size_points_weights",
+    "GridVerif.C18.gen_integrate_nonvec_eq",
+    "GridVerif.C18.gen_integrate_chunk_independent",
+    "GridVerif.C18.gen_integrate_vec_eq",
 ]
 RULE = (
-    "correspondence: random MultiDomainGrid configurations (1-4 domains, list or repeated-grid mode, mixed 1-D/3-D points, "
-    "sizes 1..7, signed weights, separable and non-separable integrands passed to the model as their table of values over "
-    "the product set); per configuration: size / enumerated points (as index tuples) / enumerated weights, the vectorised "
-    "route and the point-by-point route for chunk sizes from {1,2,3,5,total-1,total,total+1,6000} (and 0, recorded); "
-    "_chunked_iterator lengths; constructor rejections; wrong-shape vectorised integrand. non-trivial = at least 2 domains "
-    "and a chunk size >= 1 not dividing the total (point-by-point), or at least 2 domains (vectorised / structure)"
+    "correspondence: random MultiDomainGrid configurations (1-4 domains; list mode, repeated-grid mode, and the same grid object "
+    "listed several times; points that are scalars (N,), 1-vectors (N,1), 2- and 3-vectors, mixed; sizes 1..7, signed weights, "
+    "separable and non-separable integrands passed to the model as their table of values over the product set); per "
+    "configuration: size / enumerated points (as index tuples) / enumerated weights, the vectorised route and the "
+    "point-by-point route for chunk sizes from {1,2,3,5,total-1,total,total+1,6000,default} (and 0, recorded), each answered "
+    "by the hand model and by the generated programs; _chunked_iterator lengths; constructor rejections; wrong-shape "
+    "vectorised integrand. Argument kinds covered in every run (variant:* in the distribution): integrand values handed back as "
+    "float64 / float32 / int64 / int32 / bool arrays, Python lists, Python float / int / bool and 0-d arrays; chunk sizes as int / "
+    "np.int64 / np.int32; positional and keyword call forms; strided and read-only grid arrays; every call repeated on the same "
+    "object after other calls (identical answer required) and the object rebuilt. non-trivial = at least 2 domains and a chunk "
+    "size >= 1 not dividing the total (point-by-point), or at least 2 domains (vectorised / structure)"
 )
 TRUSTED_BASE = [
     "Lean 4.33 kernel; axioms propext, Classical.choice, Quot.sound only (audited per theorem)",
-    "hand model Model/NGrid.lean of MultiDomainGrid, tied by correspondence",
-    "itertools.product / islice / zip semantics as modelled (product: last factor fastest; islice(it, 0) = empty)",
-    "a vectorised integrand F is the pointwise integrand evaluated on every point of the last domain (hypothesis hF)",
+    "translator harness/translate/ngrid.py (Python AST -> Gen/NGrid.lean) and the primitives it targets in Model/NGrid.lean "
+    "(itertoolsProduct = product with the last factor fastest, pyIslice = take/drop, pyZip, pyIndex, pySlice, npProd, npSum, npMul "
+    "with a length check, pyWhileTrue with a pass bound); generators are lists; mitigation: the generated programs are run by the "
+    "driver on every configuration and compared with the implementation",
+    "basegrid.Grid.integrate = shape check + sum of weights*values (Grid.integrate of the model), tied by correspondence",
+    "a vectorised integrand is the pointwise integrand evaluated on every point of the last domain (hypothesis hF)",
 ]
 ASSUMPTIONS = [
     "exact arithmetic in the theorems; floating-point results agree up to summation order (tolerance 1e-11 of the sum of |terms|)",
@@ -64,16 +91,23 @@ ASSUMPTIONS = [
 INTEGRAND_SRC = '''
 import numpy as np
 class Integrand:
-    """kind 'sep': prod_k (c0[k] + c1[k] t_k + c2[k] t_k^2);  kind 'nonsep': exp(-0.3 s^2) + sum_k t_k t_{k+1} + 0.1 s,
-    s = sum_k c1[k] t_k;  t_k = a[k] * x_k for a 1-D point, d[k] . x_k for a 3-D point.
-    Works pointwise and with an array of points as the last argument."""
-    def __init__(self, kind, dims, a, d, c0, c1, c2):
+    # kind 'sep': prod_k (c0[k] + c1[k] t_k + c2[k] t_k^2);  kind 'nonsep': exp(-0.3 s^2) + sum_k t_k t_{k+1} + 0.1 s,
+    # s = sum_k c1[k] t_k;  t_k = a[k] * x_k for a scalar point (dims[k] = 1: grid points of shape (N,)), a[k] * x_k[0] for a
+    # one-component point (dims[k] = 11: points of shape (N, 1)), d[k][:m] . x_k for an m-component point (dims[k] = m = 2, 3).
+    # Works pointwise and with an array of points as the last argument.
+    # ret: the type in which the value is handed back: float64 (NumPy scalar / array), float32, int (Python int / int64 array
+    # holding rint(3 v)), int32, bool (v > 0.9; Python bool / bool array), list (Python float / list of floats), 0d (0-d array / array).
+    def __init__(self, kind, dims, a, d, c0, c1, c2, ret="float64"):
         self.kind, self.dims, self.a, self.d = kind, dims, a, [np.array(v, dtype=float) for v in d]
-        self.c0, self.c1, self.c2 = c0, c1, c2
+        self.c0, self.c1, self.c2, self.ret = c0, c1, c2, ret
     def t(self, k, x):
         x = np.asarray(x, dtype=float)
-        return x * self.a[k] if self.dims[k] == 1 else x @ self.d[k]
-    def __call__(self, *args):
+        if self.dims[k] == 1:
+            return x * self.a[k]
+        if self.dims[k] == 11:
+            return x[..., 0] * self.a[k]
+        return x @ self.d[k][: self.dims[k]]
+    def raw(self, *args):
         ts = [self.t(k, x) for k, x in enumerate(args)]
         if self.kind == "sep":
             r = 1.0
@@ -87,6 +121,26 @@ class Integrand:
         for k in range(len(ts) - 1):
             r = r + ts[k] * ts[k + 1]
         return r
+    def __call__(self, *args):
+        r, ret = self.raw(*args), self.ret
+        if ret == "float64":
+            return r
+        a = np.asarray(r, dtype=float)
+        scalar = a.ndim == 0
+        if ret == "float32":
+            return np.float32(a) if scalar else a.astype(np.float32)
+        if ret in ("int", "int32"):
+            q = np.rint(3 * a)
+            if scalar:
+                return int(q) if ret == "int" else np.int32(q)
+            return q.astype(np.int64 if ret == "int" else np.int32)
+        if ret == "bool":
+            return bool(a > 0.9) if scalar else (a > 0.9)
+        if ret == "list":
+            return float(a) if scalar else a.tolist()
+        if ret == "0d":
+            return np.array(float(a)) if scalar else a
+        raise ValueError(ret)
     def factor(self, k, x):
         t = self.t(k, x)
         return self.c0[k] + self.c1[k] * t + self.c2[k] * t * t
@@ -95,29 +149,73 @@ _ns = {}
 exec(INTEGRAND_SRC, _ns)
 Integrand = _ns["Integrand"]
 
+# How a configuration is turned into objects and calls of the library (source text: used by the replay snippets too).
+BUILD_SRC = '''
+import numpy as np
+def _arr(values, how):
+    a = np.array(values, dtype=float)
+    if how == "strided":
+        big = np.zeros(tuple(2 * s for s in a.shape)); sl = tuple(slice(None, None, 2) for _ in a.shape)
+        big[sl] = a
+        return big[sl]
+    if how == "readonly":
+        a.setflags(write=False)
+    return a
+def build(cfg, Grid, MultiDomainGrid):
+    # -> (multi-domain grid, listed grids, domains).  mode 'list': one grid per domain; 'repeat': one grid and num_domains;
+    # 'list-same': the *same grid object* listed nd times.
+    lay = cfg.get("layout", "c")
+    grids = [Grid(_arr(p, lay), _arr(w, lay)) for p, w in zip(cfg["pts"], cfg["wts"])]
+    if cfg["mode"] == "repeat":
+        return MultiDomainGrid(grids, num_domains=cfg["nd"]), grids, grids * cfg["nd"]
+    if cfg["mode"] == "list-same":
+        same = [grids[0]] * cfg["nd"]
+        return MultiDomainGrid(same), same, same
+    return MultiDomainGrid(grids), grids, grids
+def chunk_arg(cfg, c):
+    return {"int": int, "np.int64": np.int64, "np.int32": np.int32}[cfg.get("ctype", "int")](c)
+def run(mg, f, cfg, kind, c=None):
+    # one call of integrate in the call form named by the configuration (c = None: the default chunk size)
+    pos = cfg.get("call", "kw") == "positional"
+    if kind == "vec":
+        return mg.integrate(f, False) if pos else mg.integrate(f)
+    if c is None:
+        return mg.integrate(f, non_vectorized=True)
+    if pos:
+        return mg.integrate(f, True, chunk_arg(cfg, c))
+    return mg.integrate(f, non_vectorized=True, integration_chunk_size=chunk_arg(cfg, c))
+'''
+exec(BUILD_SRC, _ns)
+build, run = _ns["build"], _ns["run"]
+CFG_KEYS = ("mode", "nd", "dims", "pts", "wts", "par", "layout", "ctype", "call")
+EXACT_RET = ("float64", "list", "0d")           # kinds that hand back the float64 value unchanged
+
 
 def _r(x):
     return round(float(x), 3)
 
 
-def _config(ctx: Ctx, cap: int):
-    """-> dict(mode, nd, dims, pts, wts, integrand-params)"""
+def _config(ctx: Ctx, cap: int, nd=None, mode=None):
+    """-> dict(mode, nd, dims, pts, wts, integrand parameters, argument kinds)"""
     rng = ctx.rng
-    nd = rng.choice([1, 2, 2, 3, 3, 4])
-    mode = "repeat" if rng.random() < 0.3 else "list"
-    ngr = 1 if mode == "repeat" else nd
+    nd = nd or rng.choice([1, 2, 2, 3, 3, 4])
+    if mode is None:
+        u = rng.random()
+        mode = "repeat" if u < 0.25 else "list-same" if u < 0.4 and nd >= 2 else "list"
+    ngr = 1 if mode in ("repeat", "list-same") else nd
     while True:
         sizes = [rng.randint(1, 7) for _ in range(ngr)]
-        tot = sizes[0] ** nd if mode == "repeat" else math.prod(sizes)
+        tot = sizes[0] ** nd if mode in ("repeat", "list-same") else math.prod(sizes)
         if tot <= cap:
             break
-    dims = [rng.choice([1, 3]) for _ in range(ngr)]
+    # a point is a scalar (points of shape (N,)), a 1-vector ((N, 1)), a 2-vector or a 3-vector: mixed freely
+    dims = [rng.choice([1, 1, 11, 2, 3, 3]) for _ in range(ngr)]
     pts, wts = [], []
     for n, dm in zip(sizes, dims):
-        p = [[_r(rng.uniform(-1.5, 1.5)) for _ in range(dm)] for _ in range(n)]
+        p = [[_r(rng.uniform(-1.5, 1.5)) for _ in range(1 if dm == 11 else dm)] for _ in range(n)]
         pts.append([q[0] for q in p] if dm == 1 else p)
         wts.append([_r(rng.uniform(-0.5, 1.5)) or 0.25 for _ in range(n)])
-    ddims = dims * nd if mode == "repeat" else dims
+    ddims = dims * nd if mode in ("repeat", "list-same") else dims
     par = dict(
         kind=rng.choice(["sep", "nonsep"]), dims=ddims,
         a=[_r(rng.uniform(0.3, 1.2)) for _ in range(nd)],
@@ -125,20 +223,25 @@ def _config(ctx: Ctx, cap: int):
         c0=[_r(rng.uniform(0.5, 1.5)) for _ in range(nd)],
         c1=[_r(rng.uniform(-1, 1)) for _ in range(nd)],
         c2=[_r(rng.uniform(-0.5, 0.5)) for _ in range(nd)],
+        ret=rng.choice(["float64"] * 6 + ["float32", "int", "int32", "bool", "list", "0d"]),
     )
-    return dict(mode=mode, nd=nd, dims=dims, pts=pts, wts=wts, par=par, total=tot)
+    if nd == 1 and par["ret"] == "list":
+        par["ret"] = "0d"      # a list-valued vectorised integrand on ONE domain is a listed finding (probed by the oracle under its own key)
+    return dict(mode=mode, nd=nd, dims=dims, pts=pts, wts=wts, par=par, total=tot,
+                layout=rng.choice(["c"] * 4 + ["strided", "readonly"]),
+                ctype=rng.choice(["int"] * 3 + ["np.int64", "np.int32"]),
+                call=rng.choice(["kw", "kw", "positional"]))
 
 
 def _build(cfg):
     bg = importlib.import_module("grid.basegrid")
     ng = importlib.import_module("grid.ngrid")
-    grids = [bg.Grid(np.array(p, dtype=float), np.array(w, dtype=float)) for p, w in zip(cfg["pts"], cfg["wts"])]
-    mg = ng.MultiDomainGrid(grids, num_domains=cfg["nd"]) if cfg["mode"] == "repeat" else ng.MultiDomainGrid(grids)
-    doms = grids * cfg["nd"] if cfg["mode"] == "repeat" else grids
-    return mg, grids, doms
+    return build(cfg, bg.Grid, ng.MultiDomainGrid)
 
 
 def _spec(cfg):
+    if cfg["mode"] == "list-same":              # the same object nd times is, for the model, nd equal domains
+        return f"list {cfg['nd']} {cfg['nd']} " + " ".join(fvec(cfg["wts"][0]) for _ in range(cfg["nd"]))
     return f"{cfg['mode']} {cfg['nd']} {len(cfg['wts'])} " + " ".join(fvec(w) for w in cfg["wts"])
 
 
@@ -147,7 +250,7 @@ def _table(doms, f):
     sizes = [d.size for d in doms]
     out = []
     for idx in np.ndindex(*sizes):
-        out.append(float(f(*[d.points[i] for d, i in zip(doms, idx)])))
+        out.append(float(np.asarray(f(*[d.points[i] for d, i in zip(doms, idx)]))))
     return out
 
 
@@ -155,12 +258,29 @@ def _chunk_sizes(total):
     return sorted({1, 2, 3, 5, max(1, total - 1), total, total + 1, 6000})
 
 
+def _pub(cfg):
+    return {k: cfg[k] for k in CFG_KEYS if k in cfg}
+
+
+def _variants(ctx, cfg):
+    for k, dflt in (("layout", "c"), ("ctype", "int"), ("call", "kw")):
+        if cfg.get(k, dflt) != dflt:
+            ctx.distribution[f"variant:{k}={cfg[k]}"] = ctx.distribution.get(f"variant:{k}={cfg[k]}", 0) + 1
+    if cfg["par"]["ret"] != "float64":
+        ctx.distribution[f"variant:ret={cfg['par']['ret']}"] = ctx.distribution.get(f"variant:ret={cfg['par']['ret']}", 0) + 1
+    ctx.distribution[f"variant:points={sorted(set(cfg['dims']))}"] = ctx.distribution.get(f"variant:points={sorted(set(cfg['dims']))}", 0) + 1
+
+
 def corr(ctx: Ctx):
     ng = importlib.import_module("grid.ngrid")
     bg = importlib.import_module("grid.basegrid")
     ncfg = ctx.n(500, 10000)
     cap = 500 if not ctx.thorough else 2401
-    cfgs = [_config(ctx, cap if i % 5 else 60) for i in range(ncfg)]
+    # always present: three and four *distinct* grids of different sizes (list mode), the same object listed 2-3 times,
+    # repeated-grid mode with 2-3 domains; then the random configurations
+    fixed = [(3, "list"), (4, "list"), (3, "list"), (2, "list-same"), (3, "list-same"), (2, "repeat"), (3, "repeat"), (1, "list"), (1, "repeat")]
+    cfgs = [_config(ctx, 300, nd, mode) for nd, mode in fixed]
+    cfgs += [_config(ctx, cap if i % 5 else 60) for i in range(ncfg - len(cfgs))]
     lines, meta = [], []
     for ci, cfg in enumerate(cfgs):
         mg, grids, doms = _build(cfg)
@@ -168,10 +288,7 @@ def corr(ctx: Ctx):
         tab = _table(doms, f)
         cfg["_tab"] = tab
         spec = _spec(cfg)
-        lines.append("C18.struct " + spec)
-        meta.append((ci, "struct", None))
-        lines.append(f"C18.vec {spec} {fvec(tab)}")
-        meta.append((ci, "vec", None))
+        ops = [("struct", None, "struct " + spec), ("vec", None, f"vec {spec} {fvec(tab)}")]
         cs = _chunk_sizes(cfg["total"])
         if cfg["total"] > 80:
             keep = ctx.rng.sample(cs, 3)
@@ -182,104 +299,141 @@ def corr(ctx: Ctx):
         if ci % 7 == 0:
             cs = [0] + cs
         for c in cs:
-            lines.append(f"C18.nonvec {c} {spec} {fvec(tab)}")
-            meta.append((ci, "nonvec", c))
+            ops.append(("nonvec", c, f"nonvec {c} {spec} {fvec(tab)}"))
+        if ci % 6 == 0:
+            ops.append(("nonvec", None, f"nonvec 6000 {spec} {fvec(tab)}"))          # the default chunk size of the code
         if ci % 9 == 0:
-            lines.append(f"C18.vecbad {spec} {fvec(tab)}")
-            meta.append((ci, "vecbad", None))
+            ops.append(("vecbad", None, f"vecbad {spec} {fvec(tab)}"))
+        for kind, c, text in ops:
+            for who in ("model", "generated"):
+                lines.append(("C18." if who == "model" else "C18.gen-") + text)
+                meta.append((ci, kind, c, who))
     ans = driver_batch(lines)
     built = {}
-    for (ci, kind, c), a in zip(meta, ans):
+    memo = {}
+    for (ci, kind, c, who), a in zip(meta, ans):
         cfg = cfgs[ci]
         if ci not in built:
             built.clear()
+            memo.clear()
             built[ci] = _build(cfg) + (Integrand(**cfg["par"]),)
+            _variants(ctx, cfg)
         mg, grids, doms, f = built[ci]
-        case = {k: cfg[k] for k in ("mode", "nd", "dims", "pts", "wts", "par")}
-        sizes = [d.size for d in doms]
+        case = _pub(cfg)
         total = cfg["total"]
-        wit = dict(case, op=kind, chunk=c)
+        wit = dict(case, op=kind, chunk=c, answered_by=who)
+        sfx = "" if who == "model" else ":generated"
         if kind == "struct":
-            ctx.count(["struct", case], nontrivial=cfg["nd"] >= 2, tag=f"struct:{cfg['mode']}:nd{cfg['nd']}")
+            ctx.count(["struct", who, case], nontrivial=cfg["nd"] >= 2, tag=f"struct:{cfg['mode']}:nd{cfg['nd']}" + sfx)
             t = Tokens(a)
             if t.tok() != "ok":
-                ctx.fail("corr", "ngrid.struct", f"model rejected a valid configuration: {a}", witness=wit)
+                ctx.fail("corr", "ngrid.struct" + sfx, f"{who} rejected a valid configuration: {a}", witness=wit)
                 continue
             msize = t.nat()
             r, cc = t.nat(), t.nat()
             combos = [[t.nat() for _ in range(cc)] for _ in range(r)]
             mw = t.fvec()
-            isize = int(mg.size)
-            ipts = list(mg.points)
-            iw = [float(x) for x in mg.weights]
+            if "struct" not in memo:
+                memo["struct"] = (int(mg.size), list(mg.points), [float(x) for x in mg.weights])
+                # asked again after other calls, and on a second object built from the same data
+                mg.integrate(f) if total <= 200 else None
+                again = (int(mg.size), list(mg.points), [float(x) for x in mg.weights])
+                mg2 = _build(cfg)[0]
+                second = (int(mg2.size), list(mg2.points), [float(x) for x in mg2.weights])
+                for label, other in (("asked twice", again), ("object rebuilt", second)):
+                    same = (other[0] == memo["struct"][0] and other[2] == memo["struct"][2] and len(other[1]) == len(memo["struct"][1])
+                            and all(all(np.array_equal(np.asarray(x), np.asarray(y)) for x, y in zip(p, q)) for p, q in zip(other[1], memo["struct"][1])))
+                    if not same:
+                        ctx.fail("corr", "ngrid.struct:state", f"size / points / weights differ when {label}", witness=wit)
+            isize, ipts, iw = memo["struct"]
             if isize != msize or len(ipts) != r or len(iw) != len(mw):
-                ctx.fail("corr", "ngrid.size", f"size: implementation {isize} (points {len(ipts)}, weights {len(iw)}), model {msize} ({r}, {len(mw)})", witness=wit)
+                ctx.fail("corr", "ngrid.size" + sfx, f"size: implementation {isize} (points {len(ipts)}, weights {len(iw)}), {who} {msize} ({r}, {len(mw)})", witness=wit)
                 continue
             okp = all(
                 len(tp) == len(cb) and all(np.array_equal(np.asarray(x), np.asarray(d.points[i])) for x, d, i in zip(tp, doms, cb))
                 for tp, cb in zip(ipts, combos)
             )
             if not okp:
-                ctx.fail("corr", "ngrid.points", "enumerated points differ from the model's product order", witness=wit)
+                ctx.fail("corr", "ngrid.points" + sfx, f"enumerated points differ from the product order of the {who}", witness=wit)
             if not all(close(x, y, rtol=1e-13, atol=1e-300) for x, y in zip(iw, mw)):
-                ctx.fail("corr", "ngrid.weights", "enumerated weights differ from the model's", witness=wit)
+                ctx.fail("corr", "ngrid.weights" + sfx, f"enumerated weights differ from those of the {who}", witness=wit)
             continue
-        wprod = np.ones(())
-        for d in doms:
-            wprod = np.multiply.outer(wprod, d.weights)
-        scale = float(np.abs(wprod.ravel() * np.array(cfg["_tab"])).sum()) + 1e-300
+        if "scale" not in memo:
+            wprod = np.ones(())
+            for d in doms:
+                wprod = np.multiply.outer(wprod, d.weights)
+            memo["scale"] = float(np.abs(wprod.ravel() * np.array(cfg["_tab"])).sum()) + 1e-300
+        scale = memo["scale"]
+        key = (kind, c)
+        if key not in memo:
+            def call():
+                try:
+                    if kind == "vecbad":
+                        return "ok", float(mg.integrate(lambda *xs: np.asarray(f(*xs))[1:]))
+                    return "ok", float(run(mg, f, cfg, kind, c))
+                except ValueError:
+                    return "value-error", None
+                except Exception as e:                      # nothing else is an accepted outcome
+                    return f"raised {type(e).__name__}: {e}", None
+            iv = call()
+            # the same call again on the same object, after a call of the other route (identical answer required)
+            if (ci + len(memo)) % 3 == 0 and total <= 300:
+                try:
+                    run(mg, f, cfg, "vec" if kind != "vec" else "nonvec", None if kind == "vec" else None)
+                except ValueError:
+                    pass
+                iv2 = call()
+                ctx.distribution["variant:called-twice"] = ctx.distribution.get("variant:called-twice", 0) + 1
+                if iv2 != iv and not (iv[1] != iv[1] and iv2[1] != iv2[1]):
+                    ctx.fail("corr", "ngrid.integrate:state", f"{kind} c={c}: first answer {iv}, the same call again gives {iv2}", witness=wit)
+            memo[key] = iv
+        iv = memo[key]
         if kind == "vec":
-            ctx.count(["vec", case], nontrivial=cfg["nd"] >= 2, tag="vec:" + ("shortcut" if cfg["nd"] == 1 else cfg["mode"]))
-            try:
-                iv = "ok", float(mg.integrate(f))
-            except ValueError:
-                iv = "value-error", None
+            ctx.count(["vec", who, case], nontrivial=cfg["nd"] >= 2, tag="vec:" + ("shortcut" if cfg["nd"] == 1 else cfg["mode"]) + sfx)
         elif kind == "vecbad":
-            ctx.count(["vecbad", case], nontrivial=False, tag="vec:wrong-shape")
-            try:
-                iv = "ok", float(mg.integrate(lambda *xs: f(*xs)[1:]))
-            except ValueError:
-                iv = "value-error", None
+            ctx.count(["vecbad", who, case], nontrivial=False, tag="vec:wrong-shape" + sfx)
         else:
-            nontriv = cfg["nd"] >= 2 and c >= 1 and total % c != 0
-            ctx.count(["nonvec", c, case], nontrivial=nontriv,
-                      tag="nonvec:" + ("c=0" if c == 0 else "c=1" if c == 1 else "c>total" if c > total else "c=total" if c == total else "divides" if total % c == 0 else "not-dividing"))
-            try:
-                iv = "ok", float(mg.integrate(f, non_vectorized=True, integration_chunk_size=c))
-            except ValueError:
-                iv = "value-error", None
+            cc = 6000 if c is None else c
+            nontriv = cfg["nd"] >= 2 and cc >= 1 and total % cc != 0
+            ctx.count(["nonvec", who, c, case], nontrivial=nontriv,
+                      tag="nonvec:" + ("default" if c is None else "c=0" if c == 0 else "c=1" if c == 1 else "c>total" if c > total else "c=total" if c == total
+                                       else "divides" if total % c == 0 else "not-dividing") + sfx)
         t = Tokens(a)
         tag = t.tok()
         if tag != iv[0]:
-            ctx.fail("corr", f"ngrid.integrate:{kind}", f"{kind} c={c}: implementation {iv}, model {a}", witness=wit)
+            ctx.fail("corr", f"ngrid.integrate:{kind}" + sfx, f"{kind} c={c}: implementation {iv}, {who} {a}", witness=wit)
             continue
         if tag == "ok":
             mv = t.flt()
             if not close(iv[1], mv, rtol=1e-11, scale=scale):
-                ctx.fail("corr", f"ngrid.integrate:{kind}", f"{kind} c={c}: implementation {iv[1]!r}, model {mv!r} (scale {scale:.3g})", witness=wit)
-    # _chunked_iterator lengths
+                ctx.fail("corr", f"ngrid.integrate:{kind}" + sfx, f"{kind} c={c}: implementation {iv[1]!r}, {who} {mv!r} (scale {scale:.3g})", witness=wit)
+    # _chunked_iterator lengths (sizes as int and as np.int64)
     pairs = [(c, n) for c in (0, 1, 2, 3, 5, 7, 6000) for n in (0, 1, 2, 5, 6, 7, 14, 15)]
-    ans = driver_batch([f"C18.chunks {c} {n}" for c, n in pairs])
-    for (c, n), a in zip(pairs, ans):
-        impl = [len(x) for x in ng._chunked_iterator(iter(range(n)), c)]
-        ctx.count(["chunks", c, n], nontrivial=False, tag="chunks")
-        if a != "ok " + " ".join(map(str, [len(impl)] + impl)):
-            ctx.fail("corr", "ngrid._chunked_iterator", f"_chunked_iterator(range({n}), {c}) has chunk lengths {impl}, model {a}")
+    for op in ("C18.chunks", "C18.gen-chunks"):
+        ans = driver_batch([f"{op} {c} {n}" for c, n in pairs])
+        for (c, n), a in zip(pairs, ans):
+            impl = [len(x) for x in ng._chunked_iterator(iter(range(n)), c if (c + n) % 2 else np.int64(c))]
+            ctx.count([op, c, n], nontrivial=False, tag="chunks" + (":generated" if "gen" in op else ""))
+            if a != "ok " + " ".join(map(str, [len(impl)] + impl)):
+                ctx.fail("corr", "ngrid._chunked_iterator" + (":generated" if "gen" in op else ""),
+                         f"_chunked_iterator(range({n}), {c}) has chunk lengths {impl}, {op} answers {a}")
     # constructor rejections
     g1 = bg.Grid(np.array([0.0, 1.0]), np.array([1.0, 1.0]))
     g2 = bg.Grid(np.zeros((3, 3)), np.ones(3))
     cases = [("list", None, []), ("list", None, [g1]), ("list", None, [g1, g2]), ("repeat", 2, [g1, g2]), ("repeat", 0, [g1]),
-             ("repeat", 1, [g1]), ("repeat", 3, [g2]), ("repeat", 2, [])]
-    ans = driver_batch([f"C18.new {m} {nd or 0} {len(gl)} " + " ".join(str(g.size) for g in gl) for m, nd, gl in cases])
-    for (m, nd, gl), a in zip(cases, ans):
-        try:
-            ng.MultiDomainGrid(gl, num_domains=nd)
-            impl = "ok"
-        except ValueError:
-            impl = "value-error"
-        ctx.count(["new", m, nd, len(gl)], nontrivial=False, tag="constructor:" + impl)
-        if impl != a.strip():
-            ctx.fail("corr", "ngrid.__init__", f"MultiDomainGrid({len(gl)} grids, num_domains={nd}): implementation {impl}, model {a}")
+             ("repeat", 1, [g1]), ("repeat", 3, [g2]), ("repeat", 2, []), ("list", None, [g1, g1, g1]), ("repeat", 2, [g1, g1])]
+    for op in ("C18.new", "C18.gen-new"):
+        ans = driver_batch([f"{op} {m} {nd or 0} {len(gl)} " + " ".join(str(g.size) for g in gl) for m, nd, gl in cases])
+        for (m, nd, gl), a in zip(cases, ans):
+            try:
+                ng.MultiDomainGrid(gl, num_domains=nd)
+                impl = "ok"
+            except ValueError:
+                impl = "value-error"
+            ctx.count([op, m, nd, len(gl)], nontrivial=False, tag="constructor:" + impl + (":generated" if "gen" in op else ""))
+            if impl != a.strip():
+                ctx.fail("corr", "ngrid.__init__" + (":generated" if "gen" in op else ""),
+                         f"MultiDomainGrid({len(gl)} grids, num_domains={nd}): implementation {impl}, {op} answers {a}")
 
 
 SNIPPET = """import warnings; warnings.filterwarnings('ignore')
@@ -287,31 +441,60 @@ import math, numpy as np
 from grid.basegrid import Grid
 from grid.ngrid import MultiDomainGrid
 {integrand_src}
+{build_src}
 cfg = {cfg!r}
-grids = [Grid(np.array(p, dtype=float), np.array(w, dtype=float)) for p, w in zip(cfg['pts'], cfg['wts'])]
-mg = MultiDomainGrid(grids, num_domains=cfg['nd']) if cfg['mode'] == 'repeat' else MultiDomainGrid(grids)
-doms = grids * cfg['nd'] if cfg['mode'] == 'repeat' else grids
+mg, grids, doms = build(cfg, Grid, MultiDomainGrid)
 f = Integrand(**cfg['par'])
 terms = []
 def rec(k, args, w):
     if k == len(doms):
-        terms.append(w * float(f(*args))); return
+        terms.append(w * float(np.asarray(f(*args)))); return
     for i in range(doms[k].size):
         rec(k + 1, args + [doms[k].points[i]], w * float(doms[k].weights[i]))
 rec(0, [], 1.0)
 want, scale = math.fsum(terms), math.fsum(abs(t) for t in terms) + 1e-300
 what = {what!r}
-if what == 'vec':
-    got = float(mg.integrate(f))
-elif what == 'nonvec':
-    got = float(mg.integrate(f, non_vectorized=True, integration_chunk_size={chunk}))
-elif what == 'separable':
-    got = float(mg.integrate(f))
-    want = math.prod(math.fsum(float(d.weights[i]) * float(f.factor(k, d.points[i])) for i in range(d.size)) for k, d in enumerate(doms))
-elif what == 'size':
-    got, want, scale = int(mg.size), len(terms), 0
-    assert got == want == len(list(mg.points)) == len(list(mg.weights)), (got, want)
+try:
+    if what == 'vec':
+        got = float(run(mg, f, cfg, 'vec'))
+    elif what == 'nonvec':
+        got = float(run(mg, f, cfg, 'nonvec', {chunk}))
+    elif what == 'separable':
+        got = float(run(mg, f, cfg, 'vec'))
+        want = math.prod(math.fsum(float(d.weights[i]) * float(f.factor(k, d.points[i])) for i in range(d.size)) for k, d in enumerate(doms))
+    elif what == 'size':
+        got, want, scale = int(mg.size), len(terms), 0
+        assert got == want == len(list(mg.points)) == len(list(mg.weights)), (got, want)
+        ws = [float(x) for x in mg.weights]
+        ref = []
+        def recw(k, w):
+            if k == len(doms):
+                ref.append(w); return
+            for i in range(doms[k].size):
+                recw(k + 1, w * float(doms[k].weights[i]))
+        recw(0, 1.0)
+        assert all(abs(a - b) <= 1e-12 * (abs(b) + 1e-300) for a, b in zip(ws, ref)), 'weights are not the product set in nested-loop order'
+except AssertionError:
+    raise
+except Exception as e:
+    raise AssertionError(f'{{what}}: raised {{type(e).__name__}}: {{e}}')
 assert abs(got - want) <= 1e-10 * scale, f'{{what}}: integrate gives {{got!r}}, nested product quadrature {{want!r}}'
+"""
+
+
+LIST_SNIPPET = """import warnings; warnings.filterwarnings('ignore')
+import numpy as np
+from grid.basegrid import Grid
+from grid.ngrid import MultiDomainGrid
+g = Grid(np.array([0.0, 0.5, 1.0]), np.array([0.25, 0.5, 0.25]))
+mg = MultiDomainGrid([g] * {nd})
+f = lambda *xs: (sum(np.asarray(x, dtype=float) for x in xs) ** 2).tolist() if np.ndim(xs[-1]) else float(sum(xs) ** 2)
+want = float(mg.integrate(f, non_vectorized=True))
+try:
+    got = float(mg.integrate(f))
+except Exception as e:
+    raise AssertionError(f'vectorised route with a list-valued integrand raised {{type(e).__name__}}: {{e}}; point-by-point route gives {{want}}')
+assert abs(got - want) <= 1e-12 * (1 + abs(want)), (got, want)
 """
 
 
@@ -333,63 +516,103 @@ def _real_grids(ctx, nd):
     return out
 
 
+def _oracle_cfg(ctx: Ctx, cfg, chunks=None):
+    """The property at one configuration: size / enumeration / every route against an explicit nested-loop
+    quadrature (recursion over the domains, math.fsum; no itertools, no model)."""
+    mg, grids, doms = _build(cfg)
+    f = Integrand(**cfg["par"])
+    pub = _pub(cfg)
+    terms, combos, wlist = [], [], []
+
+    def rec(k, args, idx, w):
+        if k == len(doms):
+            terms.append(w * float(np.asarray(f(*args))))
+            combos.append(tuple(idx))
+            wlist.append(w)
+            return
+        for i in range(doms[k].size):
+            rec(k + 1, args + [doms[k].points[i]], idx + [i], w * float(doms[k].weights[i]))
+
+    rec(0, [], [], 1.0)
+    want = math.fsum(terms)
+    scale = math.fsum(abs(t) for t in terms) + 1e-300
+
+    def snip(what, chunk=0):
+        return SNIPPET.format(integrand_src=INTEGRAND_SRC, build_src=BUILD_SRC, cfg=pub, what=what, chunk=chunk)
+
+    # size / enumerations
+    ipts, iw = list(mg.points), [float(x) for x in mg.weights]
+    if not (int(mg.size) == len(terms) == len(ipts) == len(iw)):
+        ctx.fail("oracle", "ngrid.size", f"size {mg.size}, {len(ipts)} points, {len(iw)} weights, product set has {len(terms)}",
+                 witness=pub, snippet=snip("size"))
+    else:
+        for tp, wv, cb, ww in zip(ipts, iw, combos, wlist):
+            if not all(np.array_equal(np.asarray(x), np.asarray(d.points[i])) for x, d, i in zip(tp, doms, cb)):
+                ctx.fail("oracle", "ngrid.points", f"points are not the product set in nested-loop order at combination {cb}", witness=pub, snippet=snip("size"))
+                break
+            if not close(wv, ww, rtol=1e-13, atol=1e-300):
+                ctx.fail("oracle", "ngrid.weights", f"weight of combination {cb} is {wv!r}, product of the weights {ww!r}", witness=pub, snippet=snip("size"))
+                break
+
+    def attempt(key, what, chunk, fn, ref):
+        try:
+            got = float(fn())
+        except Exception as e:
+            ctx.fail("oracle", key, f"{what}: raised {type(e).__name__}: {e} (integrand values handed back as {cfg['par']['ret']}, chunk size as {cfg.get('ctype')})",
+                     witness=dict(pub, chunk=chunk), snippet=snip(what if what != "chunk" else "nonvec", chunk or 0))
+            return None
+        if not close(got, ref, rtol=1e-10, scale=scale):
+            ctx.fail("oracle", key, f"{what}" + (f" with chunk size {chunk}" if chunk is not None else "") + f": integrate gives {got!r}, nested product quadrature {ref!r} (total {len(terms)})",
+                     witness=dict(pub, chunk=chunk, got=got, want=ref), snippet=snip(what if what != "chunk" else "nonvec", chunk or 0))
+        return got
+
+    v1 = attempt("ngrid.integrate:vectorized", "vec", None, lambda: run(mg, f, cfg, "vec"), want)
+    tot = cfg["total"]
+    if chunks is None:
+        chunks = _chunk_sizes(tot) if tot <= 60 else ctx.rng.sample(_chunk_sizes(tot), 3)
+    for c in chunks:
+        if c is not None and c < 1:
+            continue
+        attempt("ngrid.integrate:chunk", "chunk", c, lambda: run(mg, f, cfg, "nonvec", c), want)
+    # state: the vectorised route again after the point-by-point calls
+    v2 = attempt("ngrid.integrate:vectorized", "vec", None, lambda: run(mg, f, cfg, "vec"), want)
+    if v1 is not None and v2 is not None and v1 != v2 and not (v1 != v1 and v2 != v2):
+        ctx.fail("oracle", "ngrid.integrate:state", f"the vectorised integral is {v1!r} at first and {v2!r} after other calls on the same object", witness=pub, snippet=snip("vec"))
+    if cfg["par"]["kind"] == "sep" and cfg["par"]["ret"] in EXACT_RET:
+        prod = math.prod(math.fsum(float(d.weights[i]) * float(f.factor(k, d.points[i])) for i in range(d.size)) for k, d in enumerate(doms))
+        attempt("ngrid.integrate:separable", "separable", None, lambda: run(mg, f, cfg, "vec"), prod)
+
+
 def oracle(ctx: Ctx, budget: str):
-    """The property on the implementation against an explicit nested-loop quadrature
-    (recursion over the domains, math.fsum; no itertools, no model)."""
+    """The property on the implementation against an explicit nested-loop quadrature."""
     ng = importlib.import_module("grid.ngrid")
     n = 25 if budget == "small" else 400
+    fixed = [(3, "list"), (4, "list"), (3, "list-same"), (3, "repeat")]
     for it in range(n):
-        cfg = _config(ctx, 150 if budget == "small" else 700)
+        cap = 150 if budget == "small" else 700
+        cfg = _config(ctx, cap, *fixed[it]) if it < len(fixed) else _config(ctx, cap)
+        _oracle_cfg(ctx, cfg)
+    # a vectorised integrand that hands back a Python list, on one domain and on two (own key: the single-domain
+    # shortcut passes the list on to Grid.integrate, which accepts NumPy arrays only)
+    for nd in (1, 2):
+        cfg = _config(ctx, 60, nd, "list")
+        cfg["par"]["ret"], cfg["call"] = "list", "kw"
         mg, grids, doms = _build(cfg)
         f = Integrand(**cfg["par"])
-        pub = {k: cfg[k] for k in ("mode", "nd", "dims", "pts", "wts", "par")}
-        terms, combos, wlist = [], [], []
-
-        def rec(k, args, idx, w):
-            if k == len(doms):
-                terms.append(w * float(f(*args)))
-                combos.append(tuple(idx))
-                wlist.append(w)
-                return
-            for i in range(doms[k].size):
-                rec(k + 1, args + [doms[k].points[i]], idx + [i], w * float(doms[k].weights[i]))
-
-        rec(0, [], [], 1.0)
-        want = math.fsum(terms)
-        scale = math.fsum(abs(t) for t in terms) + 1e-300
-
-        def snip(what, chunk=0):
-            return SNIPPET.format(integrand_src=INTEGRAND_SRC, cfg=pub, what=what, chunk=chunk)
-
-        # size / enumerations
-        ipts, iw = list(mg.points), [float(x) for x in mg.weights]
-        if not (int(mg.size) == len(terms) == len(ipts) == len(iw)):
-            ctx.fail("oracle", "ngrid.size", f"size {mg.size}, {len(ipts)} points, {len(iw)} weights, product set has {len(terms)}",
-                     witness=pub, snippet=snip("size"))
-        else:
-            for tp, wv, cb, ww in zip(ipts, iw, combos, wlist):
-                if not all(np.array_equal(np.asarray(x), np.asarray(d.points[i])) for x, d, i in zip(tp, doms, cb)):
-                    ctx.fail("oracle", "ngrid.points", f"points are not the product set in nested-loop order at combination {cb}", witness=pub, snippet=snip("size"))
-                    break
-                if not close(wv, ww, rtol=1e-13, atol=1e-300):
-                    ctx.fail("oracle", "ngrid.weights", f"weight of combination {cb} is {wv!r}, product of the weights {ww!r}", witness=pub, snippet=snip("size"))
-                    break
-        got = float(mg.integrate(f))
-        if not close(got, want, rtol=1e-10, scale=scale):
-            ctx.fail("oracle", "ngrid.integrate:vectorized", f"vectorised integrate {got!r}, nested product quadrature {want!r}",
-                     witness=dict(pub, got=got, want=want), snippet=snip("vec"))
-        tot = cfg["total"]
-        for c in _chunk_sizes(tot) if tot <= 60 else ctx.rng.sample(_chunk_sizes(tot), 3):
-            got = float(mg.integrate(f, non_vectorized=True, integration_chunk_size=c))
-            if not close(got, want, rtol=1e-10, scale=scale):
-                ctx.fail("oracle", "ngrid.integrate:chunk", f"point-by-point integrate with chunk size {c} gives {got!r}, nested product quadrature {want!r} (total {tot})",
-                         witness=dict(pub, chunk=c, got=got, want=want), snippet=snip("nonvec", c))
-        if cfg["par"]["kind"] == "sep":
-            prod = math.prod(math.fsum(float(d.weights[i]) * float(f.factor(k, d.points[i])) for i in range(d.size)) for k, d in enumerate(doms))
+        want = math.fsum(float(wv) * float(np.asarray(f(*tp))) for tp, wv in zip(itertools.product(*[d.points for d in doms]), (math.prod(c) for c in itertools.product(*[d.weights for d in doms]))))
+        try:
             got = float(mg.integrate(f))
-            if not close(got, prod, rtol=1e-10, scale=scale):
-                ctx.fail("oracle", "ngrid.integrate:separable", f"separable integrand: integrate {got!r}, product of single-grid integrals {prod!r}",
-                         witness=dict(pub, got=got, want=prod), snippet=snip("separable"))
+            bad = None if close(got, want, rtol=1e-10, scale=abs(want) + 1.0) else f"integrate gives {got!r}, product quadrature {want!r}"
+        except Exception as e:
+            bad = f"raised {type(e).__name__}: {e}"
+        if bad and nd == 1 and bad.startswith("raised TypeError"):
+            # scope decision (DESIGN 8.3): a vectorised integrand must hand back an array; a Python list is
+            # rejected by the single-domain shortcut (a rejection, not a wrong value) -> information only
+            ctx.info(f"out of scope: vectorised integrand returning a Python list on one domain: {bad}")
+        elif bad:
+            ctx.fail("oracle", "ngrid.integrate:vectorized:list-valued" + (":single-domain" if nd == 1 else ""),
+                     f"vectorised integrand returning a Python list, {nd} domain(s): {bad}; the point-by-point route gives "
+                     f"{float(mg.integrate(f, non_vectorized=True))!r}", witness=_pub(cfg), snippet=LIST_SNIPPET.format(nd=nd))
     # the library's own grid classes as domains
     for it in range(6 if budget == "small" else 60):
         nd = ctx.rng.randint(1, 3)
@@ -419,3 +642,16 @@ def oracle(ctx: Ctx, budget: str):
                 ctx.fail("oracle", f"ngrid.integrate:{key}:library-grids",
                          f"{[type(d).__name__ + str(d.size) for d in doms]}: integrate {got!r}, nested product quadrature {want!r}, size {mg.size} vs {tot}",
                          witness=dict(grids=[type(d).__name__ + str(d.size) for d in doms], par=par))
+
+
+def oracle_at(ctx: Ctx, failure):
+    """Evaluate the property at a configuration on which model / generated program and implementation disagreed."""
+    w = failure.witness or {}
+    if not (isinstance(w, dict) and {"mode", "nd", "pts", "wts", "par"} <= set(w)):
+        return
+    cfg = {k: w[k] for k in CFG_KEYS if k in w}
+    cfg["total"] = math.prod(len(x) for x in cfg["wts"]) if cfg["mode"] == "list" else len(cfg["wts"][0]) ** cfg["nd"]
+    chunks = None
+    if isinstance(w.get("chunk"), int) and w["chunk"] >= 1:
+        chunks = sorted({w["chunk"], 1, cfg["total"] + 1})
+    _oracle_cfg(ctx, cfg, chunks)
